@@ -27,7 +27,7 @@ def q(tier, quick, thorough):
 def recipe(c: Check):
     c.build(["Properties/C12.vo", "Corr/C12.vo"], harness=["c12"], units=["c12sync"])
     c.obligations("C12")
-    st = c.run_driver("sessions", q(c.tier, 128, 1200), shards=q(c.tier, 8, 16), timeout=1500)
+    st = c.run_driver("sessions", q(c.tier, 100, 1200), shards=q(c.tier, 8, 16), timeout=1500)
     stc = c.run_driver("clientrelogin", q(c.tier, 1, 4), shards=1, timeout=600)
     if stc and not c.broken and c.cov.get("coq_counters", {}).get("clientrelogin", {}).get("NREFUSED", 0) <= 0:
         c.broken.append(dict(kind="coverage", name="driver clientrelogin never saw a refused login", detail=""))
